@@ -56,6 +56,7 @@ structure Entry (α : Type) where
   target : List (Key × α)
   posPost : List (Key × α)
   cashPost : α
+  cashPre : α              -- cash of the pre-trade snapshot (after the accrual and the marking)
 
 structure Broker (α : Type) where
   ex : Exchange α := {}
@@ -314,7 +315,8 @@ def rebalanceExec (w : World α) (r : Rebal α) (interest nlvPre : α) (trades :
     else
       let e : Entry α := { time := r.time, interest := interest, nlvPre := nlvPre, nlvPost := nlvPost,
                            trades := trades, target := cleanAlloc w r.target,
-                           posPost := b4.held.map (fun k => (k, b4.pos k)), cashPost := b4.cash }
+                           posPost := b4.held.map (fun k => (k, b4.pos k)), cashPost := b4.cash,
+                           cashPre := b2.cash }
       ({ b4 with record := b4.record ++ [e] }, .ok ())
 
 /-- `Broker.rebalance`: accrue, snapshot, build all trades, then execute them -/
